@@ -120,7 +120,7 @@ pub struct G {
 pub fn run_case(sb: &Sandbox, before: &BTreeMap<PathBuf, Option<Vec<u8>>>, c: &Case, g: &mut G) -> Option<(String, String)> {
     g.sessions += 1;
     sb.clear_dest();
-    let loc = c.location.replace("@SANDBOX@", sb.root.to_str().unwrap());
+    let loc = c.location.replace("@SANDBOXBS@", &sb.root.to_str().unwrap().replace('/', "\\")).replace("@SANDBOX@", sb.root.to_str().unwrap());
     if loc.contains("..") {
         g.with_dotdot += 1;
     }
@@ -299,6 +299,17 @@ pub fn run(thorough: bool) -> i32 {
                 }
             }
             cur = next;
+        }
+        // backslashes: harmless bytes of a file name on this platform - unless something turns them into
+        // separators after the confinement decision was taken
+        let heads = ["", "n/", "./", "../", "n/n/", "n/../", "fresh/"];
+        let tails = ["..\\n", "..\\..\\n", "a\\..\\..\\n", "@SANDBOXBS@\\d1\\n", "..\\..\\..\\d7\\n", "n\\..\\..\\n", "\\..\\n"];
+        for p in ["file:///", "file://host/", "http://h/", "x:", "x:/", "x://h/", "", "/", "//"] {
+            for h in heads {
+                for t in tails {
+                    locs.push(format!("{}{}{}", p, h, t));
+                }
+            }
         }
         locs.sort();
         locs.dedup();
